@@ -36,16 +36,18 @@ def HonestZ (F : ZFrame) (x : Bytes) : Prop :=
 
 /-- `G` is a fresh `zlib.decompressobj(31)` about to be fed one complete gzip member of plaintext `x`.
 `rem s` = plaintext not yet returned; `fed s` = the input has been handed over.
-* `decompress(inbuf, n)` returns a prefix (≤ n) of what is left; an empty chunk means all input was consumed;
+* `decompress(inbuf, n)` returns a prefix (≤ n) of what is left; an empty chunk means all input was consumed or the end
+  of the member was reached;
 * `decompress(data)` returns output and leaves no unconsumed tail;
-* once the input is in and no tail is left, `flush()` returns whatever plaintext is still pending and `eof` is set. -/
+* once the input is in and no tail is left (or the end of the member was reached), `flush()` returns whatever plaintext
+  is still pending and `eof` is set. -/
 def HonestG (G : GFrame) (x : Bytes) : Prop :=
   G.nonempty = true ∧ G.Z.hasTail G.s0 = false ∧
   ∃ (rem : G.Z.σ → Bytes) (fed : G.Z.σ → Prop), rem G.s0 = x ∧
     (∀ s f n, 1 ≤ n → ∃ c s', G.Z.dec s f n = some (c, s') ∧ c ++ rem s' = rem s ∧ c.length ≤ n ∧ fed s' ∧
-        (c = [] → G.Z.hasTail s' = false)) ∧
+        (c = [] → G.Z.hasTail s' = false ∨ G.Z.eof s' = true)) ∧
     (∀ s, ∃ c s', G.Z.decAll s = some (c, s') ∧ c ++ rem s' = rem s ∧ fed s' ∧ G.Z.hasTail s' = false) ∧
-    (∀ s, fed s → G.Z.hasTail s = false → ∃ s', G.Z.flush s = some (rem s, s') ∧ G.Z.eof s' = true)
+    (∀ s, fed s → (G.Z.hasTail s = false ∨ G.Z.eof s = true) → ∃ s', G.Z.flush s = some (rem s, s') ∧ G.Z.eof s' = true)
 
 /-- the libraries round-trip: what a compressor emits is seen as an honest frame of its input -/
 def HonestLibs (L : Libs) : Prop :=
@@ -55,7 +57,10 @@ def HonestLibs (L : Libs) : Prop :=
 the library never returns more than it was asked for … -/
 def BoundedReads (R : Reader) : Prop := ∀ s n c s', R.read s n = some (c, s') → c.length ≤ n
 def BoundedDec (Z : ZObj) : Prop := ∀ s f n c s', Z.dec s f n = some (c, s') → c.length ≤ n
-/-- … and a decompress object that produced nothing has consumed its input (zlib stops only on full output or empty input) -/
-def NoStall (Z : ZObj) : Prop := ∀ s f n c s', Z.dec s f n = some (c, s') → c = [] → Z.hasTail s' = false
+/-- … and a decompress object that produced nothing has consumed its input or stands at the end of the member (zlib stops
+only on full output, empty input or end of stream).  CPython keeps a stale non-empty `unconsumed_tail` once `eof` is
+set and more input is offered, so "no tail" alone is **not** true of the real library. -/
+def NoStall (Z : ZObj) : Prop :=
+  ∀ s f n c s', Z.dec s f n = some (c, s') → c = [] → Z.hasTail s' = false ∨ Z.eof s' = true
 
 end VgiVerif.C18.Spec
